@@ -122,19 +122,19 @@ impl<T: Tag> Header<T> {
        spec='''    ensures
         old(input).remaining().len() < 16 ==> r is Err,
         r is Ok ==> header_parsed(old(input).remaining(), final(input).remaining(), r->Ok_0),''',
-       before=[('let size_rest', '''proof {
-            assert((index_header.num_entries as int) * (INDEX_ENTRY_SIZE as int) == 16 * (index_header.num_entries as int)) by (nonlinear_arith)
-                requires INDEX_ENTRY_SIZE == 16;
-        }
-        let ghost r0 = old(input).remaining();
-        '''),
-               ('Self::parse_header(index_header', '''proof {
+       prologue='let ghost r0 = old(input).remaining();',
+       before=[('Self::parse_header(index_header', '''proof {
             lemma_intro_bytes(r0.subrange(0, 16), index_header);
             assert(buf@ =~= r0.subrange(16, 16 + size_rest as int));
         }
         let ghost ih = index_header;
         let res = ''')],
-       after=[('Self::parse_header(index_header, &buf[..])', ''';
+       after=[('IndexHeader::parse(&buf)?;', '''
+        proof {
+            assert((index_header.num_entries as int) * (INDEX_ENTRY_SIZE as int) == 16 * (index_header.num_entries as int)) by (nonlinear_arith)
+                requires INDEX_ENTRY_SIZE == 16;
+        }'''),
+              ('Self::parse_header(index_header, &buf[..])', ''';
         proof {
             if res is Ok {
                 let h = res->Ok_0;
